@@ -395,11 +395,11 @@ func c05Deviations(x *mc.Exec) {
 	bases := c05Bases()
 	names := SortedKeys(bases)
 	name := names[x.Choose(len(names), "base")]
-	soft := x.Choose(2, "schema") == 0
-	schema := c05Schema(soft)
 	var paths []jpath
 	allPaths(bases[name], nil, &paths)
 	p1 := x.Choose(len(paths)+1, "first position") // len = no deviation
+	soft := x.Choose(2, "schema") == 0
+	schema := c05Schema(soft)
 	tree := deepCopyJSON(bases[name])
 	desc := name
 	devs := 0
